@@ -26,10 +26,15 @@ type Case struct {
 	Plan    string `json:"plan"` // default | preserve | byte600 | cap1024 | cap4095 | cap4096
 	Fill    string `json:"fill"` // pattern | zero | ff
 	UDP     bool   `json:"udp,omitempty"`
+	IOList  bool   `json:"stdio_listener,omitempty"` // local application attached through the real InputOutputListener
 }
 
 func (c Case) String() string {
-	return fmt.Sprintf("%s/%s dir=%s sizes=%v plan=%s fill=%s", c.Carrier, c.Sec, c.Dir, c.Sizes, c.Plan, c.Fill)
+	l := ""
+	if c.IOList {
+		l = " listener=stdio"
+	}
+	return fmt.Sprintf("%s/%s dir=%s sizes=%v plan=%s fill=%s%s", c.Carrier, c.Sec, c.Dir, c.Sizes, c.Plan, c.Fill, l)
 }
 
 func fillFn(fill string, tag byte) func(off int) byte {
@@ -123,7 +128,15 @@ func execute(t *testing.T, c Case) (kind, detail string, res bubble.Result) {
 			return
 		}
 		w.Chans[0].Expect = func(int) func(int) byte { return upF }
-		app := w.OpenApp("x", downF)
+		var app *world.Endpoint
+		if c.IOList {
+			if app, err = w.OpenAppIO("x", downF); err != nil {
+				kind, detail = "setup", "InputOutputListener.Start: " + err.Error()
+				return
+			}
+		} else {
+			app = w.OpenApp("x", downF)
+		}
 		bubble.Wait()
 		horizon := 5 * time.Second
 		if c.Carrier == "dns" {
@@ -259,6 +272,9 @@ func cases(thorough bool) []Case {
 						continue
 					}
 					out = append(out, Case{Carrier: v.carrier, Sec: v.sec, Dir: dir, Sizes: sq, Plan: plan, Fill: "pattern"})
+					if plan == "default" && !big && v.sec != "tls" {
+						out = append(out, Case{Carrier: v.carrier, Sec: v.sec, Dir: dir, Sizes: sq, Plan: plan, Fill: "pattern", IOList: true})
+					}
 					if len(sq) == 1 && plan == "default" && !big {
 						out = append(out, Case{Carrier: v.carrier, Sec: v.sec, Dir: dir, Sizes: sq, Plan: plan, Fill: "zero"})
 						out = append(out, Case{Carrier: v.carrier, Sec: v.sec, Dir: dir, Sizes: sq, Plan: plan, Fill: "ff"})
